@@ -35,7 +35,13 @@ def abstract_jumps(hist, chain):
     for seg in flat:
         parts.append(' ; '.join(text[pos:pos + len(seg)]))
         pos += len(seg)
-    return ' || '.join(parts)
+    text = ' || '.join(parts)
+    if c03.has_name_reuse(whole):
+        text += '|name-reuse'
+    if S.canon_unordered(hist.specs[chain[0]]) == \
+            S.canon_unordered(hist.specs[chain[-1]]) and whole:
+        text += '|net-no-change'
+    return text
 
 
 class HistoryRun(object):
@@ -315,12 +321,15 @@ def tasks_for(tier):
     narrow = c03.narrow_start()
     two = c03.two_model_start()
     if tier == 'quick':
-        add('narrow-h2', narrow, 2, 'lite', KINDS, ('D2', 'D3', 'D4'), 10)
+        add('narrow-h2', narrow, 2, 'lite', KINDS, ('D2', 'D3'), 1)
+        add('narrow-h2', narrow, 2, 'lite', KINDS, ('D4',), 10)
         add('two-model-h2', two, 2, 'lite', KINDS + ('RenameModel',
                                                      'DeleteModel'),
             ('D2',))
     else:
-        add('narrow-h3', narrow, 3, 'lite', KINDS, ('D2', 'D3', 'D4'), 20)
+        add('narrow-h3', narrow, 3, 'lite', KINDS, ('D2',), 1)
+        add('narrow-h3', narrow, 3, 'lite', KINDS, ('D3', 'D4'), 10)
+        add('narrow-h2', narrow, 2, 'full', KINDS, ('D2', 'D3', 'D4'), 1)
         add('two-model-h2', two, 2, 'full', None, ('D2', 'D3', 'D4'), 5)
         s3a = dict(starts.s3())['S3a']
         add('two-app-h2', s3a, 2, 'lite', KINDS, ('D2', 'D3'), 5)
